@@ -83,3 +83,50 @@ def check_storage(o, clause, f, x, tol, sub="", kinds=("float32", "int64", "int3
         o.check(clause, err <= t, sub="%s:%s" % (sub, name), measure=min(err, 1e300) if ts == 1.0 else None, tol=t,
                 detail=None if err <= t else {"error": err, "variant": name})
     return calls
+
+
+def flip_all(a):
+    """default caller-side edit: the array reversed along every axis, written back in place"""
+    a[...] = a[tuple(slice(None, None, -1) for _ in a.shape)].copy()
+
+
+def check_reuse(o, clause, f, x, tol, sub="", mutate=flip_all):
+    """Call history on ONE array object owned by the caller:  f(a);  f(a) again;  the caller edits a in place;
+    f(a) once more.  Clauses (each compared with what a pristine copy of the current values gives):
+      <clause>_argument_unchanged     the library call leaves a as it was
+      <clause>_repeat_on_same_array   the second call on the same object gives the result for its current values
+      <clause>_after_caller_edit      after the caller's in-place edit the result is that of the edited values
+    (a result remembered by object identity, or an argument normalised in place, shows here and nowhere else).
+    Returns the number of library calls."""
+    a = numpy.array(x)
+    keep = a.copy()
+
+    def rel(p, q):
+        if p.shape != q.shape:
+            return float("inf")
+        if not p.size:
+            return 0.0
+        both_nan = numpy.isnan(p) & numpy.isnan(q)
+        d = numpy.where(both_nan, 0, p - q)
+        e = float(numpy.max(numpy.abs(d))) / max(1.0, float(numpy.nanmax(numpy.abs(q))) if numpy.isfinite(q).any() else 1.0)
+        return e if e == e else float("inf")
+
+    calls = 0
+    try:
+        f(a)
+        calls += 1
+        same = bool(numpy.array_equal(a, keep, equal_nan=True)) if a.dtype.kind in "fc" else bool(numpy.array_equal(a, keep))
+        o.check(clause + "_argument_unchanged", same, sub=sub,
+                detail=None if same else "max change %g" % float(numpy.max(numpy.abs(a.astype(complex) - keep.astype(complex)))))
+        r2 = _flat(f(a))
+        want = _flat(f(a.copy()))
+        calls += 2
+        o.close(clause + "_repeat_on_same_array", rel(r2, want), tol, sub=sub)
+        mutate(a)
+        r3 = _flat(f(a))
+        want = _flat(f(a.copy()))
+        calls += 2
+        o.close(clause + "_after_caller_edit", rel(r3, want), tol, sub=sub)
+    except Exception as e:          # the unchanged library does not raise on these inputs (they are inputs of the check)
+        o.check(clause + "_repeat_on_same_array", False, sub=sub, detail="%s: %s" % (type(e).__name__, str(e)[:200]))
+    return calls
